@@ -17,6 +17,10 @@
 //   script    : conductor ops  {"k":"close"} {"k":"open"} {"k":"budget","n":N} (N writes pass a closed gate)
 //                              {"k":"release","i":B} {"k":"arrive","i":B} {"k":"join"} {"k":"blocked","ms":T}
 //                              {"k":"us","n":N} {"k":"mark"} {"k":"shutdown","open_after_us":N}
+//                              {"k":"shutdown_late","i":B}: with the gate closed and the io thread blocked in the sink,
+//                              ~Log starts in a second thread (stop flag set, waiting in join), THEN the producers parked
+//                              at barrier B log their remaining lines, then the gate opens: lines logged before the io
+//                              thread's final queue swap
 //               (a missing shutdown is appended: join, shutdown)
 // Trace: sink entries in stream order ([tid,seq,n] record, seq -1 = tiny anonymous; {"d":count,"n":len} drop
 // report; {"j":text,"n":len} unparseable bytes; {"f":1} flush), kmsg records, per-producer `done` (ops executed),
@@ -404,6 +408,44 @@ void runScenario(const Json::Value& sc, Json::Value& out) {
       marks.append(takeMark(r, "mark"));
     } else if (k == "shutdown") {
       doShutdown(op.get("open_after_us", 0).asInt64());
+    } else if (k == "shutdown_late") {
+      quiesce();
+      {
+        std::unique_lock<std::mutex> l(r.buf.m);
+        if (r.buf.open) die("shutdown_late needs a closed gate");
+        if (!r.buf.cv.wait_for(l, std::chrono::seconds(10), [&] { return r.buf.ioWaiting; }))
+          die("shutdown_late: the io thread is not blocked in the sink");
+      }
+      std::atomic<bool> returned{false};
+      auto t0 = std::chrono::steady_clock::now();
+      std::thread killer([&] {
+        r.log.reset();  // Log::~Log: stop flag, notify, join (blocks: the io thread sits in the closed gate)
+        shutdownMs = std::chrono::duration<double, std::milli>(std::chrono::steady_clock::now() - t0).count();
+        returned.store(true);
+      });
+      std::this_thread::sleep_for(std::chrono::milliseconds(60));
+      if (returned.load()) die("shutdown_late: ~Log returned although the io thread was blocked");
+      {
+        std::lock_guard<std::mutex> l(r.co.m);
+        r.co.released = 1 << 30;   // the late lines: offered while the destructor waits, before the final swap
+        r.co.cv.notify_all();
+      }
+      if (!waitCo(r, [&] {
+            for (size_t p = 0; p < np; p++)
+              if (!r.co.finished[p]) return false;
+            return true;
+          }))
+        die("late producers did not finish within 30 s");
+      for (auto& t : th) t.join();
+      th.clear();
+      marks.append(takeMark(r, "pre-shutdown"));
+      {
+        std::lock_guard<std::mutex> l(r.buf.m);
+        r.buf.open = true;
+        r.buf.cv.notify_all();
+      }
+      killer.join();
+      shut = true;
     }
   }
   if (!shut) {
